@@ -370,6 +370,9 @@ def main(chk):
         return e.kind in ('stmt', 'return') and any(M.call_name(c) == name for c in M.calls(e.node))
     bad_rec = bad_rest = bad_land = None
     any_restore = False
+    PEND = PT.Atoms({'P': (['self._prev_dt is not None'], ['self._prev_dt is None']),
+                     'D': (['abs(self._prev_dt - self.dt) > self._epsilon', 'abs(self.dt - self._prev_dt) > self._epsilon'], ['abs(self._prev_dt - self.dt) <= self._epsilon'])})
+    D_ = 'self._damp_timestep(self._compute_timestep())'
     for p_ in cont:
         ic = PT.stmt_index(p_, lambda e: calls_in(e, 'self._compute_timestep'))
         idp = PT.stmt_index(p_, lambda e: calls_in(e, 'self._damp_timestep'))
@@ -382,33 +385,32 @@ def main(chk):
             any_restore = True
             e = p_[i]
             okr = compact(PT.resolve(e.node.value, e.env)) == 'self._prev_dt' and i < ic and \
-                any(x.kind == 'cond' and x.truth and 'self._prev_dtisnotNone' in compact(PT.resolve(x.node, x.env)) for x in p_[:i]) and \
+                all(m_['P'] for m_ in PEND.models(p_[:i])) and \
                 any(x.kind == 'stmt' and isinstance(x.node, ast.Assign) and U(x.node.targets[0]) == 'self._prev_dt' and compact(x.node.value) == 'None' for x in p_[i:ic])
             if not okr:
                 bad_rest = bad_rest or e.node
         # a pending nominal step (saved when a step was shortened) is restored on every path that finds one
-        pend = PT.took(p_[:ic], True, 'self._prev_dt is not None and abs(self._prev_dt - self.dt) > self._epsilon', 'self._prev_dt is not None')
-        if pend is not None and not [i for i in rs if i > pend]:
-            bad_rest = bad_rest or p_[pend].node
-        # landing on tf: after damping, `t + dt > tf - eps` is tested; when it holds the returned value is tf - t, otherwise the damped step
+        # (a saved step that equals the current one needs no restoring)
+        ms_ = PEND.models(p_[:ic])
+        if ms_ and all(m_['P'] and m_['D'] for m_ in ms_) and not rs:
+            bad_rest = bad_rest or gt
+        # landing on tf: after damping, `t + dt > tf - eps` is decided on the damped step; when it holds the returned value is tf - t, otherwise the damped step itself
         ret = p_[-1]
         rv = ret.node.value if ret.kind == 'return' else None
         if rv is None:
             bad_land = bad_land or ret.node
             continue
-        rname = rv.id if isinstance(rv, ast.Name) else None
-        tests = [(i, e) for i, e in enumerate(p_) if i > idp and e.kind == 'cond' and rname is not None and
-                 N_same_landing(e, rname)]
-        if not tests:
-            bad_land = bad_land or ret.node
-            continue
-        i_t, e_t = tests[-1]
-        if e_t.truth:
-            if not same(PT.resolve(rv, ret.env), 'self.tf - self.t'):
-                bad_land = bad_land or e_t.node
+        rres = PT.resolve(rv, ret.env)
+        lands_t = PT.took(p_, True, 'self.t + %s > self.tf - self._epsilon' % D_, 'self.t + %s >= self.tf - self._epsilon' % D_)
+        lands_f = PT.took(p_, False, 'self.t + %s > self.tf - self._epsilon' % D_, 'self.t + %s >= self.tf - self._epsilon' % D_)
+        if lands_t is not None:
+            if not same(rres, 'self.tf - self.t'):
+                bad_land = bad_land or ret.node
+        elif lands_f is not None:
+            if compact(rres) != D_:
+                bad_land = bad_land or ret.node
         else:
-            if any(x.kind == 'stmt' and isinstance(x.node, (ast.Assign, ast.AugAssign)) and U(x.node.targets[0] if isinstance(x.node, ast.Assign) else x.node.target) == rname for x in p_[i_t:]):
-                bad_land = bad_land or e_t.node
+            bad_land = bad_land or ret.node
     chk.decide(bool(cont) and bad_rec is None, 'next-step', 'always-recomputed', node=gt, file=SOL, func='_get_timestep',
                detail_bad='a path returns the next step without calling _compute_timestep() and then _damp_timestep(): after a step shortened to '
                           'land on an output time a stale step would be reused although the stability criteria changed (path: %s)' % ([repr(e)[:60] for e in bad_rec] if bad_rec else 'none continues'),
@@ -459,6 +461,7 @@ def main(chk):
     dpar = [a_ for a_ in M.arg_names(dmp) if a_ != 'self'][0]
     mpaths = [p_ for p_ in PT_.enumerate_paths(M.docstring_stripped(dmp.body)) if p_[-1].kind == 'return']
     okd, whyd, kinds = bool(mpaths), '', set()
+    DAMP = PT_.Atoms({'A': (['self.count < self.n_damp'], ['self.count >= self.n_damp']), 'B': (['self.n_damp > 0'], ['self.n_damp <= 0'])})
     for p_ in mpaths:
         sto = [v for i, tg, v in PT_.stores_on(p_) if tg == 'self._damping_factor']
         rv = PT_.resolve(p_[-1].node.value, p_[-1].env) if p_[-1].node.value is not None else None
@@ -470,7 +473,13 @@ def main(chk):
         if not (N.same(rv, '%s*(%s)' % (dpar, U(fac))) or N.same(rv, '%s*self._damping_factor' % dpar)):
             okd, whyd = False, 'a path returns %s with the factor %s stored' % (U(rv), U(fac))
             break
-        ramp = PT_.took(p_, True, 'self.count < self.n_damp and self.n_damp > 0', 'self.n_damp > 0 and self.count < self.n_damp') is not None
+        # the path is a ramp path when it can only be taken with count < n_damp and n_damp > 0 (truth table over the two comparisons: any spelling of the test)
+        ms_ = DAMP.models(p_)
+        ramp = bool(ms_) and all(m_['A'] and m_['B'] for m_ in ms_)
+        mixed = any(m_['A'] and m_['B'] for m_ in ms_) and not ramp
+        if mixed:
+            okd, whyd = False, 'a path is taken both while damping and after it'
+            break
         one = isinstance(fac, ast.Constant) and fac.value == 1
         kinds.add('ramp' if ramp else 'one')
         if ramp == one:
